@@ -160,6 +160,34 @@ func s1(w *World, r *Report) {
 		}
 		ok := sameValue(vs[0].Common().Args[0], rs[0].Common().Args[0]) && w.nilTestAt(callValue(vs[0]), rs[0].Block()) == -1
 		r.Check(ok, "S-1", key, "runTrx executes only on the branch where validateTrx returned nil, for the same context", "runTrx is reachable although validateTrx failed (or for another context)", site(w, vs[0]), site(w, rs[0]))
+		// and nothing else changes state for a transaction whose validation failed: the
+		// claimed sender of a wrongly signed transaction is only a claim
+		{
+			effEv := func(in ssa.Instruction) string {
+				if c, isC := in.(ssa.CallInstruction); isC {
+					if cal := c.Common().StaticCallee(); cal != nil && cal.Name() == "validateTrx" {
+						return ""
+					}
+				}
+				if e := w.effectOf(in); e != nil {
+					return e.What + "@" + site(w, in)
+				}
+				return ""
+			}
+			fe := w.newFactEval(nil, AR(`^node\.validateTrx\(.*\)$`, "!=", "^nil$"))
+			saved := w.branchMarkers
+			w.branchMarkers = false
+			ps, complete := w.enumPaths(fn, fe.eval, effEv, 4000)
+			w.branchMarkers = saved
+			bad := ""
+			for _, p := range ps {
+				if len(p.Events) > 0 {
+					bad = strings.Join(p.Events, ", ")
+				}
+			}
+			okE := complete && len(fe.used) > 0 && bad == "" && len(ps) > 0
+			r.Check(okE, "S-1", refStr(ref)+":no-effect-when-validation-fails", "when validateTrx reports an error (which includes a failed signature check) no path of this function changes an account, a ledger or controller state", "state is changed for a transaction whose validation failed — the sender it names was never authenticated: "+bad, fnSite(w, fn))
+		}
 	}
 	// DeliverTx's context is exec=true; CheckTx's is exec=false
 	for _, nm := range []struct {
